@@ -325,6 +325,10 @@ func (k Keeper) UpdateDutchAuction(ctx sdk.Context, dutchAuction types.Auction) 
 	// resultantPrice = 1.2 *33.3
 	// currentPrice = 1.2*33.3/33.3 = 1.2 unit
 	collateralTokenAuctionPrice := k.GetPriceFromLinearDecreaseFunction(dutchAuction.CollateralTokenInitialPrice, sdk.NewInt(timeToReachZeroPrice.TruncateInt64()), sdk.NewInt(int64(timeElapsed.Seconds())))
+	// timeToReachZeroPrice is truncated to whole seconds, which can push the price below the configured end price
+	if collateralTokenAuctionPrice.LT(CollateralTokenAuctionEndPrice) {
+		collateralTokenAuctionPrice = CollateralTokenAuctionEndPrice
+	}
 	dutchAuction.CollateralTokenAuctionPrice = collateralTokenAuctionPrice
 
 	err := k.SetAuction(ctx, dutchAuction)
